@@ -92,15 +92,22 @@ def run(p, xs, resets=(), seed=0):
             test = [test[0], t] if test else [t, t]
             if test[1] - test[0] + 1 == W:
                 build = list(test)
-                kern = Kernel(X[ref[0] - 1:ref[1]], X[build[0] - 1:build[1]], p["ev_threshold"], p["divergence_metric"], bins, p["online_scaling"])
-                k = {"npcs": kern.npcs, "score": "0.0", "ref": list(ref), "build": list(build), "test": none}
+                try:
+                    kern = Kernel(X[ref[0] - 1:ref[1]], X[build[0] - 1:build[1]], p["ev_threshold"], p["divergence_metric"], bins, p["online_scaling"])
+                    k = {"npcs": kern.npcs, "score": "0.0", "ref": list(ref), "build": list(build), "test": none}
+                except Exception:  # noqa - the detector left the documented protocol (the specification rejects the trace); no kernel value
+                    kern = None
+                    k = {"npcs": -1, "score": "NaN", "ref": list(ref), "build": list(build), "test": none}
                 phase = "Monitor"
         else:
             test = [test[0] + 1, test[1] + 1]
             if (t - 1) % step == 0 and t != 1:
                 left = max(0, build[1] - test[0] + 1)
-                sc = kern.score(X[test[0] - 1:test[1]], left)
-                k = {"npcs": kern.npcs, "score": num(sc), "ref": list(ref), "build": list(build), "test": list(test)}
+                try:
+                    sc = kern.score(X[test[0] - 1:test[1]], left)
+                    k = {"npcs": kern.npcs, "score": num(sc), "ref": list(ref), "build": list(build), "test": list(test)}
+                except Exception:  # noqa - ranges that are no windows: only reachable after the detector left the protocol
+                    k = {"npcs": -1, "score": "NaN", "ref": list(ref), "build": list(build), "test": list(test)}
         if err is not None:
             ev.append({"op": "update", "total": int(det.total_samples), "since": int(det.samples_since_reset), "state": "raised " + type(err).__name__,
                        "npcs": -1, "obs": "NA", "k": k})
